@@ -14,7 +14,7 @@ RULE = ("cases: cv/cvd (prefix varint incl. all 5 length classes and their borde
         "collection: real serialised bytes AND decoded table compared with the model), dnames (mutated / random streams, "
         "outcome agreement), snames/dsnames, details (descriptor tables: bytes of the 5 streams and decoded table), "
         "ddetails (mutated streams), coll (register/add_segment_placed op sequences, store in batches through a real "
-        "Archive file with zstd, reopen, load all batches; 1..130 samples crossing 50 and 100). non-trivial = the "
+        "Archive file with zstd, reopen, load all batches, then load every batch a SECOND time into the same collection (the reader's reload-on-miss history): the catalogue must not change; 1..130 samples crossing 50 and 100). non-trivial = the "
         "decoded table is non-empty and the case is inside the theorem's domain; distinct = distinct case line")
 TRUSTED = ["python oracle in checks/c03.py (dedup-in-order reference for register/add_segment_placed; round trip = identity)",
            "zstd (Section variables zc/zd with zd (zc l x) = Some x); the model side of `coll` runs with zc = id",
@@ -698,6 +698,8 @@ def oracle(case, impl):
         bs = int(t[3])
         nb = (len(order) + bs - 1) // bs
         want = f"{res} {dump} C {nb} OK {len(order)} {dump}"
+        if " RELOAD-" in impl:
+            return "loading the contig batches a second time into the same collection changes the catalogue: ..." + impl[impl.index(" RELOAD-"):][:160]
         if impl != want:
             i = next((j for j in range(min(len(impl), len(want))) if impl[j] != want[j]), min(len(impl), len(want)))
             return f"catalogue after store/load differs from what was registered (first difference at char {i}): ...{impl[max(0, i - 40):i + 80]}"
